@@ -200,6 +200,17 @@ func WriteStats() {
 	_ = os.WriteFile(*flagStats, b, 0o644)
 }
 
+// MarkCurrent records the case that is about to run in <stats file>.current.<pid>. It is for targets that can kill the
+// process in a way Go cannot recover from (stack exhaustion through unbounded recursion): the driver turns the death of
+// a worker into a violation whose replay is this file.
+func MarkCurrent(value any) {
+	if *flagStats == "" {
+		return
+	}
+	b, _ := json.MarshalIndent(value, "", " ")
+	_ = os.WriteFile(fmt.Sprintf("%s.current.%d", *flagStats, os.Getpid()), b, 0o644)
+}
+
 // SaveReplay writes a replay file for a violation and returns its path.
 func SaveReplay(prop string, value any) string {
 	dir := *flagReplayDir
